@@ -3,7 +3,11 @@
  * If parsing failed or the encoded numbers are out of range, signature validation with it is guaranteed to fail".
  * The four caller-controlled loops carry loop contracts (hooks/C03_lax_der_loops.diff); the input buffer is a
  * heap object of exactly inputlen bytes, so any read outside it is a bounds violation. */
-#include "assumed.h"
+/* The two copies of a caller-controlled number of bytes go through the memcpy contract of DESIGN 2.4 (its
+ * requires clause = the bounds obligations); 32-byte copies stay exact. */
+#define EL_MEMCPY
+#define EL_MEMCPY_EXACT32
+#include "assumed_elements.h"
 #include "spec_der.h"
 #include "src/secp256k1.c"
 #include "contrib/lax_der_parsing.c"
@@ -20,6 +24,7 @@ void h_lax_der(void) {
     __CPROVER_assume(len <= MAXLEN && k < 64);
     INPUT_BUF(b, buf, len, 80);
     verif_ctx_init(&ctx);
+    GHOST_ONLY(g_mc_idx = k % 32;)
     ret = ecdsa_signature_parse_der_lax(&ctx, &sig, buf, len);
     WITNESS_BUF(b, buf, len, 80);
     __CPROVER_assert(ret == 0 || ret == 1, "C03 lax_der: returns 0 or 1");
